@@ -392,6 +392,13 @@ Definition try_terminated (s : kstate) (u : nat) (cur_snd : ref) : R :=
       end
   end.
 
+(* OnRestarted, then OnLaunch (which also clears the accident record), of the fresh instance. A failure inside OnRestarted
+   does not keep OnLaunch from being handled (as when the two were separate messages); it is reported once both have run *)
+Definition start_instance (s : kstate) (u : nat) (self parent : ref) : R :=
+  let '(s1, o1, p1) := handle s u TRD 0%nat self in
+  let '(s2, o2, p2) := handle s1 u TL 0%nat parent in
+  ((if p2 then s2 else upd_actor s2 u (w_accidents 0%nat)), o1 ++ o2, p1 || p2).
+
 (* tryRestarted *)
 Definition try_restarted (s : kstate) (u : nat) (cur_snd : ref) : R :=
   match get s u with
@@ -404,8 +411,9 @@ Definition try_restarted (s : kstate) (u : nat) (cur_snd : ref) : R :=
             let '(s3, inst) := provide s2 (a_tok a) in
             let s4 := upd_actor s3 u (fun b => w_st Alive (w_inst inst b)) in
             let s5 := deliver_sys s4 (a_tok a) (a_tok a) SResume in
-            let s6 := deliver_sys s5 (a_tok a) (a_tok a) SRestarted in
-            ok (deliver_sys s6 (a_tok a) (a_parent a) SLaunch) []))
+            (* the fresh instance starts its life within the same step: OnRestarted and OnLaunch are handled before
+               anything that was already queued when the restart completed *)
+            start_instance s5 u (a_tok a) (a_parent a)))
       | _, _ => ok s []
       end
   end.
